@@ -24,7 +24,14 @@
 (*                                                                         *)
 (* The adversary's move per exchange is the parameter of ClientQuery: Z's   *)
 (* server plays script[i] whenever it is asked the i-th trigger name (or    *)
-(* anything below the i-th child cut), on every retry.                      *)
+(* anything below the i-th child cut), on every retry.  A move is           *)
+(*   pre  : datagrams ahead of the real reply -- wrong ID, wrong question   *)
+(*          (right ID), both; or "tcpwrongid": truncate on UDP and answer   *)
+(*          the TCP retry under a foreign ID;                               *)
+(*   kind : what the real reply carries (AnsKinds, RefKinds below);         *)
+(*   glue : for a coherent progressing referral, whose address rides along. *)
+(* MC_Bailiwick.Emit prints every finished script with the replies the      *)
+(* model predicts (Outcome); harness/c07 plays it on the real pipeline.     *)
 (*                                                                         *)
 (* F is a record of switches, one per filter of the code; F_sound has all   *)
 (* of them on.  The pinned code has no owner filter on the answer section   *)
